@@ -94,9 +94,42 @@ pub fn c09(g: &mut G) {
         let geom = if fe == "raw" { GEOMS[i % 7] } else { "default" };
         let mode = if fe == "map_iter" { "stop" } else { "seq" };
         g.emit(build_line(fe, ty, geom, mode, &calls));
-        let out = run_frontend(fe, ty, crate::run::parse_geom(geom), &calls);
-        if let Some(b) = out.bytes {
-            g.emit(format!("spec {}", hex(&b)));
+        let out = std::panic::catch_unwind(|| run_frontend(fe, ty, crate::run::parse_geom(geom), &calls));
+        if let Ok(out) = out {
+            if let Some(b) = out.bytes {
+                g.emit(format!("spec {}", hex(&b)));
+            }
+        }
+    }
+    // histories with rejected calls in between (out of order, duplicates): what the builder
+    // writes afterwards must still be a well-formed file of exactly the accepted entries
+    for i in 0..(if g.thorough { 300 } else { 50 }) {
+        let mut rng = Rng::new(g.rng.next());
+        let words = random_words(&mut rng, 3 + i % 12, b"abc", 4);
+        let mut calls: Vec<Call> = vec![];
+        for (j, w) in words.iter().enumerate() {
+            calls.push(if i % 2 == 0 { Call::Ins(w.clone(), rng.below(300)) } else { Call::Add(w.clone()) });
+            // none, one or several rejected calls in a row
+            while rng.chance(1, 2) {
+                // a smaller key, a repeat, or a key between the last two
+                let back = rng.below(j as u64 + 1) as usize;
+                let mut k = words[j - back].clone();
+                if rng.chance(1, 3) && !k.is_empty() {
+                    k.pop();
+                }
+                calls.push(if i % 2 == 0 { Call::Ins(k, rng.below(3)) } else { Call::Add(k) });
+            }
+        }
+        let fe = if i % 2 == 0 { ["map", "raw"][i / 2 % 2] } else { ["set", "raw"][i / 2 % 2] };
+        let geom = if fe == "raw" { GEOMS[i % 7] } else { "default" };
+        g.emit(build_line(fe, 0, geom, "seq", &calls));
+        // (the generator runs the real builder to obtain the bytes; a panic there is
+        // reported by the run phase on the build line above)
+        let out = std::panic::catch_unwind(|| run_frontend(fe, 0, crate::run::parse_geom(geom), &calls));
+        if let Ok(out) = out {
+            if let Some(b) = out.bytes {
+                g.emit(format!("spec {}", hex(&b)));
+            }
         }
     }
     // the same bytes must reach sinks that accept writes piecewise (wide nodes: the 256-byte index)
@@ -331,6 +364,41 @@ pub fn c15(g: &mut G) {
             }
         }
         g.emit(build_line(if i % 2 == 0 { "map" } else { "raw" }, 0, if i % 2 == 0 { "default" } else { GEOMS[i % 7] }, "seq", &calls));
+    }
+    // batch entry points with a rejected item somewhere (stop at it, same error): duplicates
+    // and smaller keys whose VALUE is 0, equal, smaller or larger than the accepted one
+    for i in 0..(if g.thorough { 400 } else { 80 }) {
+        let mut rng = Rng::new(g.rng.next());
+        let words = random_words(&mut rng, 2 + (i % 5), b"ab", 3);
+        let mut calls: Vec<Call> = vec![];
+        for (j, w) in words.iter().enumerate() {
+            calls.push(Call::Ins(w.clone(), if i % 3 == 0 { 0 } else { 5 + j as u64 }));
+        }
+        // the rejected item: a repeat of an accepted key or a smaller key
+        let at = 1 + rng.below(words.len() as u64) as usize;
+        let back = rng.below(at as u64) as usize;
+        let k = if rng.chance(1, 5) { vec![] } else { words[at - 1 - back].clone() };
+        let v = [0u64, 0, 5 + (at as u64 - 1 - back as u64), 1, 999][(i / 2) % 5];
+        calls.insert(at, Call::Ins(k, v));
+        for fe in ["map_iter", "map_stream", "map_from_iter", "raw_iter", "raw_stream", "raw_from_iter_map"] {
+            g.emit(build_line(fe, 0, "default", "stop", &calls));
+        }
+        g.emit(build_line("map", 0, "default", "seq", &calls));
+        let adds: Vec<Call> = calls.iter().map(|c| match c { Call::Ins(k, _) | Call::Add(k) => Call::Add(k.clone()) }).collect();
+        for fe in ["set_iter", "set_stream", "set_from_iter", "raw_from_iter_set"] {
+            g.emit(build_line(fe, 0, "default", "stop", &adds));
+        }
+    }
+    // every front end over a sink that observes the order of writes and flushes: the bytes
+    // must have reached the sink before the last flush, and equal the in-memory build
+    for (i, (_, keys)) in sets.iter().enumerate().take(if g.thorough { 60 } else { 16 }) {
+        let kv = values(keys, (i * 3 + 1) % VALUE_PATTERNS, &mut g.rng);
+        let ops = if kv.is_empty() { "-".to_string() } else { show_calls(&ins_calls(&kv)) };
+        let fes = ["raw", "map", "set", "map_iter", "set_iter", "map_stream", "set_stream", "raw_iter", "raw_stream"];
+        for fe in [fes[i % fes.len()], fes[(i + 4) % fes.len()]] {
+            g.emit(format!("sink 0 default - - _ {} {}", ops, fe));
+            g.emit("stream always - -".into());
+        }
     }
     // the same bytes through a sink that takes at most 64 bytes per call (wide nodes)
     for n in [32usize, 33, 40] {
